@@ -814,3 +814,28 @@ theorem trace_channel1 (D : Nat) (ks : List ((Nat → Nat → K) × (Nat → Nat
 
 end kraus
 end SFV.Fock
+
+namespace SFV.Fock
+
+/-- counting kept modes: one more after a kept mode, never fewer -/
+theorem keptPos_succ (traced : List Nat) (i : Nat) :
+    keptPos traced (i + 1) = keptPos traced i + (if traced.contains i then 0 else 1) := by
+  unfold keptPos
+  rw [List.range_succ, List.filter_append, List.length_append]
+  by_cases h : i ∈ traced <;> simp [List.filter_cons, h]
+
+theorem keptPos_mono (traced : List Nat) {i j : Nat} (hij : i ≤ j) : keptPos traced i ≤ keptPos traced j := by
+  induction hij with
+  | refl => exact Nat.le_refl _
+  | step _ ih => rw [keptPos_succ]; omega
+
+/-- **deletion keeps the remaining modes in index order**: the new axis positions of two kept modes are ordered like their
+indices (so after `Del` the state's `j`-th mode is the `j`-th live subsystem, for every register and every set of deleted modes) -/
+theorem keptPos_strictMono (traced : List Nat) {i j : Nat} (hij : i < j) (hi : traced.contains i = false) :
+    keptPos traced i < keptPos traced j := by
+  have hi' : i ∉ traced := by simpa using hi
+  have h1 : keptPos traced (i + 1) = keptPos traced i + 1 := by rw [keptPos_succ]; simp [hi']
+  have h2 := keptPos_mono traced (show i + 1 ≤ j from hij)
+  omega
+
+end SFV.Fock
